@@ -1125,7 +1125,7 @@ impl CanonicalizeContext {
 						let mut is_empty_script = CanonicalizeContext::is_empty_element(as_element(children[0])) &&
 						   								CanonicalizeContext::is_empty_element(as_element(children[1]));
 						if element_name == "msubsup" {
-							is_empty_script = CanonicalizeContext::is_empty_element(as_element(children[2]));
+							is_empty_script = is_empty_script && CanonicalizeContext::is_empty_element(as_element(children[2]));
 						}
 						if is_empty_script {
 							if parent_requires_child {
